@@ -551,6 +551,21 @@ def nondet_confined(repo, fi, call, tag):
       isinstance(p.targets[0], ast.Name) and 'stop_file' in p.targets[0].id:
     if 'logical_stop_' in norm(p.value):
       return True, ''
+  # the time stamp held in a local that goes nowhere but into the stop-file name
+  if isinstance(p, (ast.Assign, ast.Return)) and 'logical_stop_' in norm(p.value, 400):
+    return True, ''
+  if isinstance(p, ast.Assign) and len(p.targets) == 1 and isinstance(p.targets[0], ast.Name):
+    name = p.targets[0].id
+    uses = [x for x in walk_local(fi.node) if isinstance(x, ast.Name) and x.id == name and
+            isinstance(x.ctx, ast.Load)]
+    def stmt_of(x):
+      q = par.get(x)
+      while q is not None and not isinstance(q, ast.stmt):
+        q = par.get(q)
+      return q
+    if uses and all(stmt_of(x) is not None and isinstance(stmt_of(x), (ast.Assign, ast.Return))
+                    and 'logical_stop_' in norm(stmt_of(x).value, 400) for x in uses):
+      return True, ''
   return False, ('%s flows into %s: compiled text varies from run to run '
                  'beyond the permitted stop-signal file name' % (tag, norm(p, 60) if p else '?'))
 
